@@ -123,11 +123,20 @@ func (l *link) exec(kind, key string, payload []byte, exp uint64, apply func(rec
 		s.applyMu.Lock()
 		rec.PrevLive = s.store.Live(key)
 		err = apply(rec)
-		s.mu.Lock()
-		rec.Applied = err == nil
-		rec.ApplyT = s.now()
-		rec.ApplySeq = s.nextSeq()
-		s.mu.Unlock()
+		if s.lean {
+			// no harness lock on the library goroutine's way back (it would order this goroutine after whatever
+			// API call of the plan returned last, and hide a race between the two); the store's own lock is
+			// what a real store has as well
+			rec.Applied = err == nil
+			rec.ApplyT = s.now()
+			rec.ApplySeq = 1<<30 + int(s.leanApply.Add(1))
+		} else {
+			s.mu.Lock()
+			rec.Applied = err == nil
+			rec.ApplyT = s.now()
+			rec.ApplySeq = s.nextSeq()
+			s.mu.Unlock()
+		}
 		s.applyMu.Unlock()
 	}
 
